@@ -1,7 +1,7 @@
 """C06 - the seven CFDP file-directive PDUs: exact encoding, round trip, no silent truncation."""
 from __future__ import annotations
 
-from spverif.core.util import attempt, exc_sig, rand_uint, hist_len
+from spverif.core.util import attempt, exc_sig, rand_uint, hist_len, rand_bytes
 from spverif.ref import cfdp as R
 from . import _cfdp as C
 
@@ -312,6 +312,36 @@ def run(ctx):
                 if got is not None:
                     ctx.table("crc_register_at_boundary", f"{kind}/{where}/{target:04x}")
                     k_pdu(ctx, kind, got[0], got[1], model_fed=bool(target))
+    # the largest PDUs a 16-bit data field length can describe: Metadata / Finished PDUs filled with options up to exactly 65535 octets
+    # (and one, two less), NAK PDUs with as many segment requests as fit
+    for crc in (0, 1):
+        for large in (0, 1):
+            cfg = C.rand_cfg(r, crc=crc, large=large)
+            fss = 8 if large else 4
+            for total in (65535, 65534, 65533):
+                fixed = 1 + 1 + fss + 2 + 2 + 2 * crc                      # directive, flags, size, two 1-octet names, CRC
+                rest, opts = total - fixed, []
+                while rest >= 2:
+                    n = min(255, rest - 2) if rest - 2 - min(255, rest - 2) != 1 else 254
+                    opts.append([r.choice(C.METADATA_OPTION_TYPES), rand_bytes(r, n).hex(), "generic"])
+                    rest -= 2 + n
+                if rest == 0:
+                    ctx.table("largest_pdu", f"metadata/{total}")
+                    k_pdu(ctx, "metadata", cfg, {"closure": 1, "cksum_type": 0, "size": 1, "src_name": "a", "dst_name": "b", "options": opts}, model_fed=bool(crc))
+                fixed = 1 + 1 + 2 * crc
+                rest, resp = total - fixed, []
+                while rest >= 5:
+                    n = min(255, rest - 2) if rest - 2 - min(255, rest - 2) not in (1, 2, 3, 4) else 250
+                    resp.append({"action": 1, "status": 0x10, "first": "n" * (n - 3), "second": "", "msg": ""})
+                    rest -= 2 + n
+                if rest == 0:
+                    ctx.table("largest_pdu", f"finished/{total}")
+                    k_pdu(ctx, "finished", cfg, {"cond": 0, "delivery": 0, "status": 2, "responses": resp, "fault_id": None}, model_fed=not crc)
+            nmax = (65535 - 1 - 2 * fss - 2 * crc) // (2 * fss)
+            for n in (nmax, nmax - 1):
+                ctx.table("largest_pdu", f"nak/{n}")
+                k_pdu(ctx, "nak", cfg, {"start": 0, "end": C.rand_fss(r, large), "segments": [[i * 10, i * 10 + 7] for i in range(n)]})
+            k_oversize(ctx, "nak", cfg, {"start": 0, "end": 1, "segments": [[i, i + 1] for i in range(nmax + 1)]})
     # one caller-owned configuration re-used (and updated in place) for several PDUs
     for j in range(ctx.n(700, 50_000)):
         k_conf_reuse(ctx, C.DIRECTIVE_KINDS[j % 7], ctx.seed * 1_000_003 + ctx.shard[0] * 100_003 + j)
